@@ -32,6 +32,7 @@ func runC12(cases string, res *Result) {
 	c12DefaultsAreExpressions(res)
 	c12AfterAFailedImport(res)
 	c12MacrosReachedFromIncludes(res)
+	c12CallsSeveralMacrosDeep(res)
 	firstKnown := map[string]*Finding{}
 	knownSize := map[string]int{}
 	evalVariantBudget = 14000
